@@ -603,11 +603,10 @@ impl PeerManager {
                 &inv.application, &self.app_key
             )));
         }
-        inv.insert(uid_encode(&self.private_room_id), &self.services.database)
-            .await?;
         let token = MeetingSecret::derive_token(DERIVE_STRING, &inv.invite_id);
         let entry = self.allowed_token.entry(token).or_default();
-        //an invitation that is already known (accepted before, or created by this peer) is not registered twice
+        //an invitation that is already known (accepted before, or created by this peer) is not registered twice,
+        //neither in the token table nor in the database
         let known = entry.iter().any(|tt| match tt {
             TokenType::Invite(i) => i.invite_id.eq(&inv.invite_id),
             TokenType::OwnedInvite(o) => o.id.eq(&inv.invite_id),
@@ -616,6 +615,9 @@ impl PeerManager {
         if known {
             return Ok(());
         }
+        inv.insert(uid_encode(&self.private_room_id), &self.services.database)
+            .await?;
+        let entry = self.allowed_token.entry(token).or_default();
         entry.push(TokenType::Invite(inv.clone()));
         self.invites.push(inv);
         self.send_annouces().await?;
